@@ -208,7 +208,7 @@ _MOD_COUNTER = [0]
 
 
 DEFAULT_ANNOT = False   # wrapper mode new Reg objects start with (see realize / core.Ctx.wrapped)
-WRAP_MODES = (True, "newtype", "typealias", "builtin", "abc")
+WRAP_MODES = (True, "newtype", "typealias", "builtin", "abc", "annotated-unhashable")
 
 
 class Reg:
@@ -301,6 +301,10 @@ def realize(ty, reg: Reg):
         return t   # spelling modes act inside _realize
     if mode in (True, "annotated"):
         return typing.Annotated[t, "verif"]
+    if mode == "annotated-unhashable":
+        # metadata objects need not be hashable (a dataclass instance with eq, a list): Annotated[t, meta] is then
+        # unhashable itself, and still a transparent wrapper
+        return typing.Annotated[t, ["verif"]]
     tag = ty if isinstance(ty, str) else ty[0]
     if tag == "any" or (mode == "newtype" and tag == "lit"):
         return t
@@ -348,6 +352,14 @@ def _realize(ty, reg: Reg):
         return typing.Literal[consts]
     spell = getattr(reg, "annot", False)
     builtin = spell == "builtin"    # PEP 585 generics and PEP 604 unions
+    if tag in ("opt", "union") and spell == "annotated-unhashable":
+        # typing.Union itself needs hashable members (it removes duplicates through a set): below a union the
+        # metadata is the hashable one
+        reg.annot = "annotated"
+        try:
+            return _realize(ty, reg)
+        finally:
+            reg.annot = spell
     if tag == "opt":
         inner = realize(ty[1], reg)
         if builtin:
